@@ -4,7 +4,8 @@
 //! invariant at quiescence. (notify) gate-forced windows in LoadBalancer::wait_for_connection and
 //! WaitGroup::wait.
 
-use rzmq::verif::{self, Rpq, RpqSender, RpqTrySendError};
+use rzmq::verif::{self, PipeKind, Rpq, RpqMsgSender, RpqSender, RpqTrySendError};
+use rzmq::FrameBatch;
 use serde_json::json;
 use std::collections::{BTreeMap, VecDeque};
 use std::sync::atomic::{AtomicBool, AtomicUsize, Ordering};
@@ -26,13 +27,164 @@ enum SendMode {
   Mixed,
 }
 
+/// How items travel: the generic ReadyPipeSender<T>, or FrameBatches through the sender kind a socket
+/// type layers on top of it (SUB's filtered kind has its own hand-inlined batch loop).
+#[derive(Clone, Copy, Debug, PartialEq, Eq, Hash)]
+enum Via {
+  Generic,
+  Msg(PipeKind),
+}
+
+fn enc(it: Item) -> FrameBatch {
+  let mut v = Vec::with_capacity(9);
+  v.push(b'k');
+  v.extend_from_slice(&(it.0 as u32).to_be_bytes());
+  v.extend_from_slice(&it.1.to_be_bytes());
+  let mut fb = FrameBatch::new();
+  fb.push(rzmq::Msg::from_vec(v));
+  fb
+}
+fn noise() -> FrameBatch {
+  let mut fb = FrameBatch::new();
+  fb.push(rzmq::Msg::from_vec(b"x-not-subscribed".to_vec()));
+  fb
+}
+fn dec(fb: &FrameBatch) -> Option<Item> {
+  let d = fb.iter().next()?.data()?;
+  if d.len() != 9 || d[0] != b'k' {
+    return None;
+  }
+  Some((u32::from_be_bytes([d[1], d[2], d[3], d[4]]) as usize, u32::from_be_bytes([d[5], d[6], d[7], d[8]])))
+}
+
+enum TryErr {
+  Full,
+  Closed,
+}
+
+enum Tx {
+  Plain(RpqSender<Item>),
+  Msg(RpqMsgSender, bool),
+}
+
+impl Tx {
+  async fn send(&self, it: Item, rng: &mut Rng) -> Result<(), ()> {
+    match self {
+      Tx::Plain(t) => t.send(it).await.map_err(|_| ()),
+      Tx::Msg(t, filtered) => {
+        if *filtered && rng.chance(1, 3) {
+          let _ = t.send(noise()).await;
+        }
+        t.send(enc(it)).await.map_err(|_| ())
+      }
+    }
+  }
+  fn try_send(&self, it: Item, rng: &mut Rng) -> Result<(), TryErr> {
+    match self {
+      Tx::Plain(t) => match t.try_send(it) {
+        Ok(()) => Ok(()),
+        Err(RpqTrySendError::Full(_)) => Err(TryErr::Full),
+        Err(RpqTrySendError::Closed(_)) => Err(TryErr::Closed),
+      },
+      Tx::Msg(t, filtered) => {
+        if *filtered && rng.chance(1, 3) {
+          let _ = t.try_send(noise());
+        }
+        match t.try_send(enc(it)) {
+          Ok(()) => Ok(()),
+          Err(RpqTrySendError::Full(_)) => Err(TryErr::Full),
+          Err(RpqTrySendError::Closed(_)) => Err(TryErr::Closed),
+        }
+      }
+    }
+  }
+  /// Offers `items` in one batch call; returns how many of them were accepted (a prefix).
+  fn try_send_batch(&self, items: &[Item], rng: &mut Rng) -> usize {
+    match self {
+      Tx::Plain(t) => {
+        let mut dq: VecDeque<Item> = items.iter().copied().collect();
+        let _ = t.try_send_batch(&mut dq);
+        items.len() - dq.len()
+      }
+      Tx::Msg(t, filtered) => {
+        let mut dq: VecDeque<FrameBatch> = VecDeque::new();
+        for it in items {
+          if *filtered && rng.chance(1, 3) {
+            dq.push_back(noise());
+          }
+          dq.push_back(enc(*it));
+        }
+        if *filtered && rng.chance(1, 4) {
+          dq.push_back(noise());
+        }
+        let _ = t.try_send_batch(&mut dq);
+        let left = dq.iter().filter(|fb| dec(fb).is_some()).count();
+        items.len() - left
+      }
+    }
+  }
+}
+
+enum Q {
+  Plain(Rpq<Item>),
+  Msg(Rpq<FrameBatch>),
+}
+
+impl Q {
+  fn register(&self, pipe: usize, capacity: usize, via: Via) -> Tx {
+    match (self, via) {
+      (Q::Plain(q), _) => Tx::Plain(q.register_pipe(pipe, capacity, 1)),
+      (Q::Msg(q), Via::Msg(k)) => Tx::Msg(q.register_pipe_kind(pipe, capacity, 1, k, &[b"k"]), k == PipeKind::FilteredAnonymous),
+      (Q::Msg(q), Via::Generic) => Tx::Msg(q.register_pipe_kind(pipe, capacity, 1, PipeKind::DirectAnonymous, &[]), false),
+    }
+  }
+  async fn pop(&self) -> Result<(usize, Option<Item>), rzmq::ZmqError> {
+    match self {
+      Q::Plain(q) => q.pop().await.map(|(p, it)| (p, Some(it))),
+      Q::Msg(q) => q.pop().await.map(|(p, fb)| (p, dec(&fb))),
+    }
+  }
+  fn try_pop(&self) -> Option<(usize, Option<Item>)> {
+    match self {
+      Q::Plain(q) => q.try_pop().map(|(p, it)| (p, Some(it))),
+      Q::Msg(q) => q.try_pop().map(|(p, fb)| (p, dec(&fb))),
+    }
+  }
+  fn deregister_pipe(&self, p: usize) {
+    match self {
+      Q::Plain(q) => q.deregister_pipe(p),
+      Q::Msg(q) => q.deregister_pipe(p),
+    }
+  }
+  fn close(&self) {
+    match self {
+      Q::Plain(q) => q.close(),
+      Q::Msg(q) => q.close(),
+    }
+  }
+  fn slots(&self) -> Vec<verif::SlotSnapshot> {
+    match self {
+      Q::Plain(q) => q.slots(),
+      Q::Msg(q) => q.slots(),
+    }
+  }
+  fn ready_len(&self) -> usize {
+    match self {
+      Q::Plain(q) => q.ready_len(),
+      Q::Msg(q) => q.ready_len(),
+    }
+  }
+}
+
 #[derive(Clone, Debug)]
 struct Cfg {
+  via: Via,
   producers: usize,
   items: u32,
   capacity: usize,
   ready_cap: usize,
   send_mode: SendMode,
+  batch_max: usize,
   consumers: usize,
   try_pop_mix: bool,
   cancel_pops: bool,
@@ -41,48 +193,54 @@ struct Cfg {
   perturb: bool,
 }
 
-async fn producer(tx: RpqSender<Item>, pipe: usize, n: u32, mode: SendMode, seed: u64, pushed: Arc<parking_lot::Mutex<Vec<Item>>>) {
+async fn producer(tx: Tx, pipe: usize, n: u32, mode: SendMode, batch_max: usize, seed: u64, pushed: Arc<parking_lot::Mutex<Vec<Item>>>) {
   let mut rng = Rng::new(seed);
   let mut seq = 0u32;
   while seq < n {
     let m = if mode == SendMode::Mixed { *rng.pick(&[SendMode::Async, SendMode::Try, SendMode::Batch]) } else { mode };
     match m {
       SendMode::Async => {
-        if tx.send((pipe, seq)).await.is_err() {
+        if tx.send((pipe, seq), &mut rng).await.is_err() {
           return; // pipe deregistered
         }
         pushed.lock().push((pipe, seq));
         seq += 1;
       }
-      SendMode::Try => match tx.try_send((pipe, seq)) {
+      SendMode::Try => match tx.try_send((pipe, seq), &mut rng) {
         Ok(()) => {
           pushed.lock().push((pipe, seq));
           seq += 1;
         }
-        Err(RpqTrySendError::Full(_)) => tokio::task::yield_now().await,
-        Err(RpqTrySendError::Closed(_)) => return,
+        Err(TryErr::Full) => tokio::task::yield_now().await,
+        Err(TryErr::Closed) => return,
       },
       _ => {
-        let k = rng.range(1, 4).min((n - seq) as usize) as u32;
-        let mut dq: VecDeque<Item> = (seq..seq + k).map(|s| (pipe, s)).collect();
-        let before = dq.len();
-        let w = tx.try_send_batch(&mut dq);
-        let sent = before - dq.len();
-        let _ = w;
+        let k = rng.range(1, batch_max).min((n - seq) as usize) as u32;
+        let items: Vec<Item> = (seq..seq + k).map(|s| (pipe, s)).collect();
+        let sent = tx.try_send_batch(&items, &mut rng);
         for s in seq..seq + sent as u32 {
           pushed.lock().push((pipe, s));
         }
         seq += sent as u32;
-        if sent == 0 {
-          match tx.try_send((pipe, seq)) {
-            Ok(()) => {
-              pushed.lock().push((pipe, seq));
-              seq += 1;
+        if (sent as u32) < k {
+          // what the sessions do with the item that did not fit: a blocking send of the front item
+          if mode == SendMode::Batch || rng.chance(1, 2) {
+            if tx.send((pipe, seq), &mut rng).await.is_err() {
+              return;
             }
-            Err(RpqTrySendError::Full(_)) => {}
-            Err(RpqTrySendError::Closed(_)) => return,
+            pushed.lock().push((pipe, seq));
+            seq += 1;
+          } else {
+            match tx.try_send((pipe, seq), &mut rng) {
+              Ok(()) => {
+                pushed.lock().push((pipe, seq));
+                seq += 1;
+              }
+              Err(TryErr::Full) => {}
+              Err(TryErr::Closed) => return,
+            }
+            tokio::task::yield_now().await;
           }
-          tokio::task::yield_now().await;
         }
       }
     }
@@ -98,6 +256,8 @@ struct Outcome {
   stuck: Option<String>,
   slots: Vec<verif::SlotSnapshot>,
   ready_len: usize,
+  /// popped FrameBatches that are not one of our items (the filter let a non-matching message through)
+  undecodable: usize,
 }
 
 fn run_history(cfg: &Cfg, seed: u64) -> Option<Outcome> {
@@ -106,7 +266,11 @@ fn run_history(cfg: &Cfg, seed: u64) -> Option<Outcome> {
   let cfgc = cfg.clone();
   let out = rt.block_on(async move {
     let cfg = cfgc;
-    let q: Arc<Rpq<Item>> = Arc::new(Rpq::new(cfg.ready_cap));
+    let q: Arc<Q> = Arc::new(match cfg.via {
+      Via::Generic => Q::Plain(Rpq::new(cfg.ready_cap)),
+      Via::Msg(_) => Q::Msg(Rpq::new(cfg.ready_cap)),
+    });
+    let undecodable = Arc::new(AtomicUsize::new(0));
     let pushed = Arc::new(parking_lot::Mutex::new(Vec::<Item>::new()));
     let popped = Arc::new(parking_lot::Mutex::new(Vec::<Item>::new()));
     let producers_done = Arc::new(AtomicUsize::new(0));
@@ -114,12 +278,12 @@ fn run_history(cfg: &Cfg, seed: u64) -> Option<Outcome> {
     let last_progress = Arc::new(parking_lot::Mutex::new(Instant::now()));
     let mut handles = vec![];
     for p in 0..cfg.producers {
-      let tx = q.register_pipe(p, cfg.capacity, 1);
+      let tx = q.register(p, cfg.capacity, cfg.via);
       let pd = producers_done.clone();
       let pushed = pushed.clone();
       let counts = Some(p) != cfg.deregister_pipe;
       handles.push(tokio::spawn(async move {
-        producer(tx, p, cfg.items, cfg.send_mode, seed.wrapping_add(p as u64 * 7919), pushed).await;
+        producer(tx, p, cfg.items, cfg.send_mode, cfg.batch_max, seed.wrapping_add(p as u64 * 7919), pushed).await;
         if counts {
           pd.fetch_add(1, Ordering::SeqCst);
         }
@@ -133,7 +297,17 @@ fn run_history(cfg: &Cfg, seed: u64) -> Option<Outcome> {
       let lp = last_progress.clone();
       let try_mix = cfg.try_pop_mix;
       let cancel = cfg.cancel_pops;
+      let undec = undecodable.clone();
       consumers.push(tokio::spawn(async move {
+        let record = |it: Option<Item>| match it {
+          Some(it) => {
+            popped.lock().push(it);
+            *lp.lock() = Instant::now();
+          }
+          None => {
+            undec.fetch_add(1, Ordering::SeqCst);
+          }
+        };
         let mut rng = Rng::new(seed ^ (0xC0 + c as u64));
         loop {
           if stop.load(Ordering::SeqCst) {
@@ -141,8 +315,7 @@ fn run_history(cfg: &Cfg, seed: u64) -> Option<Outcome> {
           }
           if try_mix && rng.chance(1, 3) {
             if let Some((_, it)) = q.try_pop() {
-              popped.lock().push(it);
-              *lp.lock() = Instant::now();
+              record(it);
             } else {
               tokio::task::yield_now().await;
             }
@@ -153,8 +326,7 @@ fn run_history(cfg: &Cfg, seed: u64) -> Option<Outcome> {
             let n = rng.range(1, 3);
             match CancelAfter::new(q.pop(), n).await {
               CancelOutcome::Completed(Ok((_, it)), _) => {
-                popped.lock().push(it);
-                *lp.lock() = Instant::now();
+                record(it);
               }
               CancelOutcome::Completed(Err(_), _) => return,
               CancelOutcome::Cancelled(_) => {
@@ -165,8 +337,7 @@ fn run_history(cfg: &Cfg, seed: u64) -> Option<Outcome> {
           }
           match q.pop().await {
             Ok((_, it)) => {
-              popped.lock().push(it);
-              *lp.lock() = Instant::now();
+              record(it);
             }
             Err(_) => return,
           }
@@ -220,7 +391,7 @@ fn run_history(cfg: &Cfg, seed: u64) -> Option<Outcome> {
     }
     let pushed = pushed.lock().clone();
     let popped = popped.lock().clone();
-    Outcome { popped, pushed, stuck, slots, ready_len }
+    Outcome { popped, pushed, stuck, slots, ready_len, undecodable: undecodable.load(Ordering::SeqCst) }
   });
   verif::set_perturbation(0);
   rt.shutdown_timeout(Duration::from_millis(200));
@@ -229,7 +400,11 @@ fn run_history(cfg: &Cfg, seed: u64) -> Option<Outcome> {
 
 fn check_history(rep: &mut Report, cfg: &Cfg, seed: u64, o: &Outcome) {
   let cfgs = format!("{:?}", cfg);
-  let sigcfg = format!("mode={:?}|cap={}|consumers={}|cancel={}|dereg={}", cfg.send_mode, cfg.capacity, cfg.consumers, cfg.cancel_pops, cfg.deregister_pipe.is_some());
+  let sigcfg = format!("via={:?}|mode={:?}|cap={}|consumers={}|cancel={}|dereg={}", cfg.via, cfg.send_mode, cfg.capacity, cfg.consumers, cfg.cancel_pops, cfg.deregister_pipe.is_some());
+  if o.undecodable > 0 {
+    rep.violation(format!("filter_leak|{}", sigcfg), format!("{} messages that match no subscription were queued for the receiver", o.undecodable), json!({"config": cfgs, "seed": seed}));
+    return;
+  }
   let wit = |o: &Outcome| json!({"config": cfgs, "seed": seed, "pushed": o.pushed.len(), "popped": o.popped.len(), "ready_len": o.ready_len, "slots": o.slots.iter().map(|s| format!("pipe{} chan={} queued={} reserved={}", s.pipe_id, s.channel_len, s.queued_count, s.reserved_count)).collect::<Vec<_>>()});
   if let Some(why) = &o.stuck {
     // lost wake-up predicate: items sit in a pipe, the ready list is empty, nothing is running
@@ -289,9 +464,11 @@ fn rpq_layer(rep: &mut Report, args: &Args, rng: &mut Rng) {
   while t0.elapsed() < budget {
     let producers = rng.range(1, 4);
     let cfg = Cfg {
+      via: *rng.pick(&[Via::Generic, Via::Msg(PipeKind::DirectAnonymous), Via::Msg(PipeKind::FilteredAnonymous), Via::Msg(PipeKind::FilteredAnonymous), Via::Msg(PipeKind::DirectAddressed)]),
+      batch_max: *rng.pick(&[3usize, 3, 6, 12]),
       producers,
       items: rng.range(3, 50) as u32,
-      capacity: rng.range(1, 2),
+      capacity: *rng.pick(&[1usize, 1, 2, 2, 3, 5]),
       ready_cap: *rng.pick(&[1usize, 2, 4, 16]).max(&producers),
       send_mode: *rng.pick(&[SendMode::Async, SendMode::Try, SendMode::Batch, SendMode::Mixed, SendMode::Mixed]),
       consumers: if rng.chance(1, 4) { 2 } else { 1 },
